@@ -154,6 +154,11 @@ func unknownFields(md protoreflect.MessageDescriptor) []wfield {
 	if max := 1<<29 - 1; md.Fields().ByNumber(protoreflect.FieldNumber(max)) == nil && !md.ExtensionRanges().Has(protoreflect.FieldNumber(max)) {
 		u = append(u, mk(max, refwire.Fixed32, refwire.AppendFixed32(nil, 7)), lenField(max, []byte("m")), mk(max, refwire.Fixed64, refwire.AppendFixed64(nil, 9)))
 	}
+	// an unknown field whose key is a single byte (numbers 1-15), where the schema leaves one free: decoders tend to treat
+	// one-byte keys specially
+	if lo := free(1); lo <= 15 {
+		u = append(u, mk(lo, refwire.Varint, refwire.AppendVarint(nil, 42)), lenField(lo, []byte("lo")))
+	}
 	unkCache[md.FullName()] = u
 	return u
 }
@@ -387,6 +392,21 @@ func variantsAt(md protoreflect.MessageDescriptor, c *dynamicpb.Message, depth i
 		}
 	}
 	add("unknown-all-kinds-interleaved", interleave(fs, unk))
+	if top {
+		// two unknown fields in one message, the first with a padded key, the second with a minimal one (of every shape):
+		// what Skip remembers about one key must not leak into the next field
+		base := unknownFields(md)
+		for pi, pk := range paddedUnknown(md) {
+			for qi, q := range base {
+				if qi >= 1 && qi < len(base)-2 {
+					continue // the first shape and the last two (one-byte keys where the schema has room)
+				}
+				add(fmt.Sprintf("padded%d-then-unknown%d@front", pi, qi), append([]wfield{pk, q}, fs...))
+				add(fmt.Sprintf("padded%d@front-unknown%d@back", pi, qi), append(append([]wfield{pk}, fs...), q))
+				add(fmt.Sprintf("unknown%d-then-padded%d@back", qi, pi), append(append([]wfield{}, fs...), q, pk))
+			}
+		}
+	}
 	return out
 }
 
